@@ -379,3 +379,54 @@ def sub_inputs(P, E, H, scope=None):
     if n < 30:
         r.error("SUB-inputs: only %d operators with Observable inputs found (floor 30)" % n)
     return r
+
+
+# --------------------------------------------------------------------------- INIT: the state machines start in their initial state
+INIT_TABLE = [
+    # (struct, canonical field, expected, what goes wrong otherwise)
+    ("observer::Observer", "terminated", ("flag", False),
+     "no terminal has been claimed when an observer is created: started as `true`, begin_terminal() refuses the first terminal as well and no "
+     "subscriber ever receives error or complete"),
+    ("observer::Observer", "fn_on_unsubscribe", ("optcell", False), "a fresh observer has no teardown hook"),
+    ("internals::stream_controller::StreamController", "on_finalize", ("optcell", False), "a fresh controller has no finalize hook"),
+    ("operators::to_vec::ToVec", "done", ("flag", False),
+     "the source has not terminated when the future is created: started as `true`, the first poll resolves with an empty vector before the source "
+     "has emitted anything"),
+    ("operators::to_vec::ToVec", "err", ("optcell", False), "no error has been recorded when the future is created"),
+    ("operators::to_vec::ToVec", "waker", ("optcell", False), "no task is registered when the future is created"),
+    ("schedulers::async_function_queue::AsyncFunctionQueueData", "abort", ("flag", False),
+     "a new queue is not aborted: started as `true`, the worker leaves its loop at once and no posted task ever runs"),
+    ("subjects::replay_subject::ReplaySubject", "was_completed", ("flag", False),
+     "a new ReplaySubject has not completed: started as `true`, every subscriber is completed on arrival and sees no live item"),
+    ("subjects::replay_subject::ReplaySubject", "was_error", ("optcell", False), "a new ReplaySubject has not failed"),
+    ("operators::ref_count::RefCount", "subscription", ("optcell", False), "ref_count() holds no source subscription before its first subscriber"),
+    ("operators::replay::Replay", "subscription", ("optcell", False), "replay() holds no source subscription before its first subscriber"),
+]
+
+
+def init_rule(P, E, prefixes=None):
+    """The cells the other rules reason about (terminal flag, done flag, abort flag, recorded terminal, stored handles) are
+    created in the initial state of their state machine: the constant the constructor puts into the cell."""
+    from rules_count import field_init
+    r = RuleResult("INIT", "flags and option cells of the library's state machines are constructed in their initial state")
+    n = 0
+    for (adt, field, want, why) in INIT_TABLE:
+        if prefixes and not adt.startswith(prefixes):
+            continue
+        if adt not in P.adts:
+            r.error("INIT: anchor missing: struct %s" % adt)
+            continue
+        n += 1
+        got = field_init(P, E, adt, field)
+        if got is None or got[0] not in ("flag", "optcell", "int"):
+            r.instance((adt, field, "initial value"), False, "not decided (constructor builds %s)" % (got,))
+            continue
+        r.instance((adt, field, "initial value"), True, "constructed as %s" % (got,))
+        if got[0] != want[0] or got[1] != want[1]:
+            r.violate((adt, field, "wrong initial value"),
+                      "%s.%s is constructed as %s, expected %s: %s" % (adt.split("::")[-1], field,
+                      {("flag", True): "true", ("flag", False): "false", ("optcell", True): "Some(..)", ("optcell", False): "None"}.get((got[0], got[1]), got),
+                      {("flag", True): "true", ("flag", False): "false", ("optcell", True): "Some(..)", ("optcell", False): "None"}[want], why))
+    if n == 0:
+        r.error("INIT: no table entry in scope")
+    return r
